@@ -93,6 +93,21 @@ def gen_scenario(seed, profile="rebalance"):
             tp = rng.choice(sorted(topics))
             events.append([round(tt, 3), "append", tp, rng.randrange(topics[tp]), 1])
         events.append([round(tt - rng.uniform(0.0, 1.0), 3), "evict", rng.randrange(nm)])
+    # (own stream) SyncGroup replies that take most of a heartbeat interval: a rebalance that was not started by a
+    # failed heartbeat (a refused commit, a new member) then has heartbeat ticks falling inside the join/sync exchange
+    rng2 = random.Random((seed * 16807) ^ 0x51055)
+    if profile == "rebalance" and rng2.random() < 0.4:
+        rej = [e for e in events if e[1] == "reject_commits"]
+        who = rej[0][2] if rej else rng2.randrange(nm)
+        t_s = rej[0][0] if rej else round(rng2.uniform(0.5, 8.0), 3)
+        events.append([max(0.0, round(t_s - 0.05, 3)), "slow_sync", who, rng2.choice((0.6, 0.9))])
+        if not rej:
+            events.append([round(t_s + 0.2, 3), "reject_commits", who, rng2.choice((22, 25))])
+            tt = t_s
+            for _ in range(6):
+                tt += rng2.choice((0.1, 0.25))
+                tp = sorted(topics)[0]
+                events.append([round(tt, 3), "append", tp, rng2.randrange(topics[tp]), 1])
     events.sort(key=lambda e: e[0])
     return dict(seed=seed, profile=profile, brokers=list(range(1, nb + 1)), topics=topics, members=members,
                 events=events, faults=[], latency=rng.choice((0.0, 0.002, 0.02)), horizon=22.0,
@@ -323,6 +338,10 @@ def _apply_event(tr, e):
     elif kind == "slow_commits":
         m = tr.members["m%d" % e[2]]
         cl.faults.add(dict(api="OffsetCommit", client_id=m.name.encode(), nth=list(range(0, 12)), after=tr.w.clock.seconds(),
+                           action=dict(kind="ok", delay=e[3])))
+    elif kind == "slow_sync":
+        m = tr.members["m%d" % e[2]]
+        cl.faults.add(dict(api="SyncGroup", client_id=m.name.encode(), nth=[0, 1, 2], after=tr.w.clock.seconds(),
                            action=dict(kind="ok", delay=e[3])))
     elif kind == "reject_commits":
         m = tr.members["m%d" % e[2]]
